@@ -1,6 +1,6 @@
 """Assumed contracts of the networkx calls used by the conversion code, over an abstract graph state."""
 import ast, z3
-from vf2.spec import *
+from vf.spec import *
 JD = ListT(INT, tagged=True); JDS = ListT(JD)
 Name = Elem("Name"); P = PairT(INT, INT); LP = ListT(P)
 GRAPH = RecT("Graph", {"nodes": SetT(INT), "adj": SetT(P), "jd_has": SetT(INT), "jd": ArrT(INT, JD),
